@@ -281,6 +281,20 @@ func faults(base *dt.File) []fault {
 			add("missing-parameter-"+c.k, t, "required parameter(s) not specified")
 		}
 	}
+	// missing name of a TYPE, an ENUM, a MACRO
+	{
+		t := base.Clone()
+		appendRoot(t, mark(dt.N("TYPE")).WithBody(dt.SchemaBody, []string{"{}"}))
+		add("missing-parameter-TYPE", t, "required parameter(s) not specified", "The type name \"\" is not valid")
+		t = base.Clone()
+		appendRoot(t, mark(dt.N("ENUM")).WithBody(dt.EnumBody, []string{"[1, 2]"}))
+		add("missing-parameter-ENUM", t, "required parameter(s) not specified")
+		t = base.Clone()
+		m := mark(dt.N("MACRO")).Add(dt.N("TYPE", "@nnmT", "any"))
+		m.Explicit = true
+		appendRoot(t, m)
+		add("missing-parameter-MACRO", t, "required parameter(s) not specified")
+	}
 	// missing body
 	for _, p := range findAll(base.Nodes, func(n *dt.Node) bool { return dt.IsMethod(n.Kw) }) {
 		m := nodeAt(base, p)
@@ -343,8 +357,23 @@ func faults(base *dt.File) []fault {
 		t3.Nodes = append([]*dt.Node{t3.Nodes[1], js}, t3.Nodes[2:]...)
 		mark(t3.Nodes[0])
 		add("jsight-not-first", t3, "The first directive in the document must be JSIGHT")
+		// only a MACRO definition precedes JSIGHT
+		t4 := base.Clone()
+		clearIDs2(t4)
+		pre := mark(dt.N("MACRO", "@beforeJsight")).Add(dt.N("TYPE", "@bjT", "any"))
+		pre.Explicit = true
+		t4.Nodes = append([]*dt.Node{pre}, t4.Nodes...)
+		add("jsight-not-first-after-macro", t4, "The first directive in the document must be JSIGHT")
 	}
 	return out
+}
+
+func clearIDs2(f *dt.File) {
+	for _, n := range f.Nodes {
+		if n.ID == faultID {
+			n.ID = ""
+		}
+	}
 }
 
 func clearIDs(n *dt.Node) {
